@@ -170,7 +170,8 @@ def deep_chain(depth):
 
 
 def judge(ctx, root, origin, deep=None):
-    plain = None
+    # (the witness is the tree as it was BEFORE the operations ran - afterwards it may already be the modified one)
+    plain = snapshot.to_plain(root) if deep is None else None
 
     def wit(opname):
         nonlocal plain
@@ -278,6 +279,22 @@ def run(ctx, params):
                     x.content = rng.choice(["<para>inline paragraph</para>", "<markdown>some *text*</markdown>", "<section><para>x</para></section>",
                                             "<para>one</para><para>two</para>", "<para>unclosed"])
                     ctx.count("text_elements_with_inline_markup")
+            for x in nodes:
+                # responsible parties identified through every spelling of the ORCID directory that is in circulation
+                if x.name == "userId" and rng.random() < 0.7:
+                    x.add_attribute("directory", rng.choice(["https://orcid.org", "https://orcid.org/", "http://orcid.org", "http://orcid.org/",
+                                                             "https://www.orcid.org", "https://www.orcid.org/", "ORCID", "https://ror.org"]))
+                    ctx.count("user_ids_with_directory_spellings")
+            if rng.random() < 0.3:
+                # attribute values that a program put there and that are not text (and that JSON cannot even represent)
+                import datetime
+                import decimal
+                import uuid as _uuid
+                for x in rng.sample(nodes, min(3, len(nodes))):
+                    x.add_attribute(rng.choice(["id", "verifStamp"]), rng.choice([_uuid.uuid4(), datetime.date(2020, 2, 29), decimal.Decimal("1.50"), 7, 2.5, True,
+                                                                                  None, ("a", "b")]))
+                    x.add_extras("verif:object", rng.choice([_uuid.uuid4(), datetime.date(2020, 2, 29), 3]))
+                ctx.count("trees_with_values_that_are_not_text")
             for n in rng.sample(nodes, min(4, len(nodes))) + [x for x in nodes if x.name == "title"][:2]:
                 if n.content is not None:
                     # text that an in-place escaper / normaliser / trimmer would rewrite
@@ -326,6 +343,23 @@ def run(ctx, params):
             ctx.count("hand_written_documents")
             ctx.case(judge, ctx, t, "hand-written document")
             emlkit.discard(t)
+    # responsible parties identified through every spelling of the ORCID directory in circulation (read-only for evaluation too)
+    for spelling in ("https://orcid.org", "https://orcid.org/", "http://orcid.org", "http://orcid.org/", "https://www.orcid.org", "https://www.orcid.org/",
+                     "ORCID", " https://orcid.org ", "https://ror.org", ""):
+        for party in ("creator", "contact", "associatedParty", "metadataProvider", "personnel"):
+            ds = Node("dataset")
+            ds.add_child(Node("title", content="one two three four five six"))
+            p_ = Node(party)
+            ind = Node("individualName")
+            ind.add_child(Node("surName", content="Gaucho"))
+            p_.add_child(ind)
+            uid = Node("userId", content="https://orcid.org/0000-0001-2345-6789")
+            uid.add_attribute("directory", spelling)
+            p_.add_child(uid)
+            ds.add_child(p_)
+            ctx.count("parties_with_directory_spellings")
+            ctx.case(judge, ctx, ds, "party with a userId directory spelling")
+            emlkit.discard(ds)
     # a chain deeper than the interpreter's recursion limit: the recursive entry points die with RecursionError half-way - and must
     # still leave the tree as it was (and answer the same way the second time)
     import sys
